@@ -1,5 +1,5 @@
 #!/bin/bash
-# tools/twin_matrix.sh <out.log> : every refactoring twin under /tmp/wt/*-r/_refactor against the checks that read the
+# tools/twin_matrix.sh <out.log> : every refactoring twin under /verif/twins against the checks that read the
 # files it touches (S checks always; K-based checks when it touches generator / codegen / compile code).
 out="$1"; : > "$out"
 job() {
@@ -7,12 +7,12 @@ job() {
   d=$(mktemp -d /tmp/scr.XXXXXX); cp -r /repo/src "$d/src"
   if ( cd "$d" && patch -p1 -s < "$diff" ) >/dev/null 2>&1; then
     o=$(cd /verif && VERIF_NO_EVIDENCE=1 ./check "$c" --tier quick --src "$d/src" 2>&1); rc=$?
-    echo "== $(echo $diff | sed 's#/tmp/wt/##; s#/_refactor/#/#') $c exit=$rc $(echo "$o" | grep -E 'UNDISCHARGED|ANALYSIS-ERROR' | head -2 | cut -c1-260 | tr '\n' '|')"
+    echo "== $(echo $diff | sed 's#/verif/twins/##') $c exit=$rc $(echo "$o" | grep -E 'UNDISCHARGED|ANALYSIS-ERROR' | head -2 | cut -c1-260 | tr '\n' '|')"
   else echo "== $diff $c patch-failed"; fi
   rm -rf "$d"
 }
 export -f job
-for diff in /tmp/wt/*-r/_refactor/r*.diff; do
+for diff in /verif/twins/*-r/r*.diff; do
   checks="C07 C08 C09 C10 C12 C14 C15"
   if grep -q "^+++ b/src/tensora/\(iteration_graph\|desugar\|codegen\|ir\|generate\|kernel_type\|problem\)" "$diff"; then checks="$checks C01 C05 C06 C16 C03"; fi
   if grep -q "^+++ b/src/tensora/\(compile\|tensor.py\)" "$diff"; then checks="$checks C13 C11"; fi
